@@ -82,6 +82,13 @@ CLAIMED = {
         "Trusted: reference codec (harness/refcodec), the scripted outstation's own classification of each fragment it sends, the recording handler stubs, tokio's paused clock. Deliberate relaxations: a deviation that happens to be indistinguishable from a correct answer at the moment it arrives (well-formed, expected sequence and FIR, in time - e.g. a stale answer that was held up, a truncation right after the IIN, count-qualified event headers that the library's direction-agnostic parser reads as data-less) makes the rest of that request don't-care; so does an arrival in the same virtual millisecond as a task boundary or the response deadline. With start-up gating configured, unsolicited data before integrity completion is left to C17.",
         "DESIGN.md section 6 C15",
     ),
+    "C16": (
+        "S-MAST",
+        "deterministic simulation: seeded search over user request mixes (commands of all five variations, reads, time syncs, restarts, dead-band writes, link checks, file reads), per-step reply deviations (echo mutations, IIN2, sequence/source/flags, late, silence, file block/status), and faults placed before/between/after protocol steps (connection cut, refused/hanging reconnects, disable, association removal, master task dropped, unrelated channel traffic) against the real master over a simulated TCP seam; oracle = outcome obligations evaluated over the recorded history",
+        "Seeded exploration (not exhaustive): requests are submitted singly and in bursts (queue limits 1, 2, 16) to the real ClientTask + MasterTask; the scripted outstation answers each protocol step faithfully or with a reply that differs in one status, value bit, index, object count, order, header count or qualifier, rejects with IIN2, uses a wrong sequence/source/flag nibble, answers late or not at all; file reads are served by a scripted g70 file server (wrong block number, error status, lost blocks, reader aborts). The oracle checks on its own record of the wire: (R1) every request - also after cuts, disable, removal and dropping the master task - has exactly one outcome by the end of a 60 s quiet tail, and a FileReader exactly one terminal callback, preceded by `opened` and the blocks in order with the right contents; (R2) every task ends at most one response timeout after its last request or accepted fragment, and a link status check one timeout after its request frame; (R3) a command reports success only if every step was answered within its timeout by a byte-identical all-SUCCESS echo from the addressed outstation with the request sequence number, any other request only if every step had an acceptable answer; (R4) OPERATE is written only after such an echo of its SELECT, with sequence + 1 and identical objects; (R5) a request whose every step was faithfully answered with nothing else going on succeeds; (R6) a lost reply yields ResponseTimeout at written + timeout, an error status BadStatus, an IIN2 rejection the IIN2 error.",
+        "Trusted: reference codec, the scripted outstation's labelling of what it sent, recording stubs, tokio paused clock. Tasks are paired with user requests per association first-in first-out with a consistency check (function code, times, outcome); runs where the pairing is not unique (0.6 %) only get R1/R9. R5/R6 apply only to undisturbed requests (connected throughout, no fault operation, queue not full) whose steps saw nothing but clearly ignorable fragments before the decisive one; arrivals in the same millisecond as the deadline or the task start are don't-care. A connect attempt that nobody answers is ended after 21 s (operating system SYN timeout) because requests are not serviced while the client task sits in connect().",
+        "DESIGN.md section 6 C16",
+    ),
     "C04": (
         "S-OUT",
         "deterministic simulation: seeded search over request histories, virtual-time advances around the select timeout, retransmissions, reconnects/pre-emption and handler answers against the real outstation task; oracle = the property's predicate evaluated on the harness' own record of the history",
@@ -136,7 +143,7 @@ def main():
         "engines": [
             {"name": "S-LINK", "path": "harness/props/c06.rs", "serves_properties": ["C06", "C07"], "kind_free_text": "real link reader/parser/formatter (C06) and real link Layer (C07 link scenario) over a simulated physical layer; seeded streams, faults and read plans"},
             {"name": "S-OUT", "path": "harness/sout.rs", "serves_properties": ["C03", "C04", "C05", "C07", "C11", "C12", "C13", "C14"], "kind_free_text": "real OutstationTask (session, database, event buffer, real transport/link) run by the real ServerTask over simulated connections; scripted master peer using the reference codec; recording stubs for user callbacks; user transactions injected at database lock points (H4)"},
-            {"name": "S-MAST", "path": "harness/smast.rs", "serves_properties": ["C15"], "kind_free_text": "real MasterTask run by the real tcp ClientTask over a simulated network (H3) with latency and chunking; scripted outstation(s) built on the reference codec with a queue of reply policies; recording stubs for ReadHandler/AssociationHandler/AssociationInformation/Listener; user requests issued by simulated tasks through the public async API"},
+            {"name": "S-MAST", "path": "harness/smast.rs", "serves_properties": ["C15", "C16"], "kind_free_text": "real MasterTask run by the real tcp ClientTask over a simulated network (H3) with latency and chunking; scripted outstation(s) built on the reference codec with a queue of reply policies; recording stubs for ReadHandler/AssociationHandler/AssociationInformation/Listener; user requests issued by simulated tasks through the public async API"},
             {"name": "S-TRANS", "path": "harness/props/c08.rs", "serves_properties": ["C08"], "kind_free_text": "two real transport writers -> frame-level fault stage -> real transport reader (link layer + assembler) over simulated phys"},
         ],
         "checks": checks,
